@@ -367,6 +367,12 @@ fn fs_probe() {
             }
         }
         let _ = rt.block_on(simple.locate_symbols(&m));
+        if !with_decoys {
+            // second pass: locate_symbols FIRST, on an empty cache, so that fetch_symbol_file (and its create_cache_file /
+            // commit_cache_file) really downloads and caches; in the first pass locate_file(BreakpadSym) has already
+            // cached the symbol file through fetch_lookup and locate_symbols is answered from the cache
+            let _ = rt.block_on(http.locate_symbols(&m));
+        }
         let mut http_ret: Vec<Option<PathBuf>> = vec![];
         for k in kinds {
             if let Ok(p) = rt.block_on(http.locate_file(&m, k)) {
@@ -460,7 +466,11 @@ fn fs_probe() {
         if second.starts_with("F|ESC") {
             return second.replacen("F|ESC|", "F|ESC|(sandbox without decoys) ", 1);
         }
-        first
+        // the files the second pass created under its cache (locate_symbols first: fetch_symbol_file's cache path)
+        match second.rsplit_once("|C:") {
+            Some((_, made2)) => format!("{}|D:{}", first, made2),
+            None => first,
+        }
     });
 }
 
